@@ -457,14 +457,14 @@ POW_BITS = 4          # exponents i, j <= 8 fit 4 bits
 
 def bounds():
     q = dict(
-        divmod=8, gcd=4, ring2=8, ring3=5,
-        field_pairs=6, field_distrib=5, field_assoc=4, field_single=8, field_pow=5, field_trace=6, field_conj=6,
-        minpoly=4, minpoly_least=4, prim=12, nzd=16,
+        divmod=8, gcd=4, ring2=8, ring_assoc=5, ring_distrib=5,
+        field_pairs=6, field_distrib=5, field_assoc=4, field_single=8, field_pow=4, field_trace=6, field_conj=6,
+        minpoly=4, prim=12, nzd=12,
     )
     t = dict(
-        divmod=12, gcd=6, ring2=12, ring3=8,
-        field_pairs=8, field_distrib=7, field_assoc=6, field_single=12, field_pow=6, field_trace=8, field_conj=8,
-        minpoly=6, minpoly_least=6, prim=16, nzd=16,
+        divmod=12, gcd=6, ring2=12, ring_assoc=6, ring_distrib=8,
+        field_pairs=8, field_distrib=7, field_assoc=6, field_single=10, field_pow=6, field_trace=8, field_conj=8,
+        minpoly=5, prim=16, nzd=16,
     )
     return tier(q, t)
 
@@ -489,15 +489,15 @@ def build_items():
                                 cost=(da + db + 2) ** 2 * (8 if ("gcd" in cl or "lcm" in cl) else 1)))
     its.append(dict(kind="poly_divzero", clause="poly.division_by_zero_raises", config=f"deg a <= {B['divmod']}, b = 0", D=B["divmod"], cost=5))
     for cl in POLY3:
-        D = B["ring3"]
+        D = B["ring_assoc"] if cl == "poly.mul_assoc" else B["ring_distrib"]
         for da in range(-1, D + 1):
             for db in range(-1, D + 1):
                 its.append(dict(kind="poly", clause=cl, config=f"deg a = {da}, deg b = {db}, deg c <= {D}", degs=[da, db, None], D=D, cost=(da + db + D) ** 2))
     # ---- fields ------------------------------------------------------------------------------------
-    def field_items(cl, mmax, cube_from, stretch_from=None, stretch_to=None):
+    def field_items(cl, mmax, cube_from, stretch_from=None, stretch_to=None, m_from=1):
         law, kinds, _ = FIELD[cl]
         top = stretch_to if stretch_to else mmax
-        for m in range(1, top + 1):
+        for m in range(m_from, top + 1):
             ne = sum(1 for k in kinds if k in "efqr")
             total_bits = ne * m + (POW_BITS * kinds.count("x"))
             nb = 0
@@ -514,21 +514,29 @@ def build_items():
     field_items("field.frobenius", B["field_pairs"], 12)
     field_items("field.distrib", B["field_distrib"], 12)
     field_items("field.assoc", B["field_assoc"], 11, stretch_from=B["field_assoc"] + 1, stretch_to=tier(B["field_assoc"] + 1, 8))
-    field_items("field.pow_def", B["field_pow"], 9)
-    field_items("field.pow_add", B["field_pow"], 9)
+    field_items("field.pow_def", B["field_pow"], 8)
+    field_items("field.pow_add", B["field_pow"], 10)
     field_items("field.trace", B["field_trace"], 10)
     field_items("field.conjugates", B["field_conj"], 8)
-    field_items("field.minpoly_vanishes", B["minpoly"], 6)
-    field_items("field.minpoly_least", B["minpoly_least"], 8)
+    field_items("field.minpoly_vanishes", B["minpoly"], 8)
+    field_items("field.minpoly_least", B["minpoly"], 8)
+    field_items("field.minpoly_irreducible", B["minpoly"], 12, m_from=2)     # m = 1: no q, r of degree >= 1 below degree 1
     for m in range(1, B["nzd"] + 1):
-        its.append(dict(kind="field", clause="field.no_zero_divisors", m=m, cube_bits=0, cube=0, config=f"GF(2^{m})", cost=4 ** min(m, 12)))
+        # m = 13 is the only irreducible modulus above 11: its unsat proof is split over the top bits of a
+        nb = 5 if m == 13 else 0
+        for cube in range(1 << nb):
+            its.append(dict(kind="field", clause="field.no_zero_divisors", m=m, cube_bits=nb, cube=cube,
+                            config=f"GF(2^{m})" + (f", top {nb} bits of a = {cube:0{nb}b}" if nb else ""), cost=4 ** min(m, 11)))
     for m in range(1, B["field_single"] + 1):
         its.append(dict(kind="field_raises", clause="field.inverse_of_zero_raises", m=m, config=f"GF(2^{m})", cost=1))
         its.append(dict(kind="field_raises", clause="field.negative_exponent_raises", m=m, config=f"GF(2^{m})", cost=1))
     for m in range(1, B["prim"] + 1):
-        its.append(dict(kind="prim", clause="field.primitive_order_exact", m=m, config=f"GF(2^{m})", cost=2 ** m * m))
+        if m == 1:
+            its.append(dict(kind="prim", clause="field.primitive_order_exact", m=m, config=f"GF(2^{m})", cost=1))
+        for L in range(1, m + 1 if m > 1 else 0):     # one item per bit length of the exponent (= trip count of __pow__)
+            its.append(dict(kind="prim", clause="field.primitive_order_exact", m=m, L=L, config=f"GF(2^{m}), bit_length(e) = {L}", cost=2 ** L * m * 4,
+                            stretch=(m == 16 and L >= 12)))     # probed: m = 16 is decided up to 11-bit exponents within the item timeout
         its.append(dict(kind="prim_full", clause="field.primitive_order_divides", m=m, config=f"GF(2^{m})", cost=m))
-    field_items("field.minpoly_irreducible", B["minpoly"], 10)
     for name in MUTANTS:
         its.append(dict(kind="mutant", clause="c18.mutant_selftest", config=name, cost=50))
     its.sort(key=lambda it: (bool(it.get("stretch")), -it.get("cost", 0)))
@@ -700,9 +708,16 @@ def w_prim(item, F=None, mutants=None, patch=None):
     if m == 1:
         return [ob(item["clause"], item["config"], "holds", what="no exponent 1 <= e < 2^1 - 1 exists (empty range): nothing to decide",
                    note="vacuous by the range, not by the harness")]
-    e = sym_value(W, "e", m)
+    L = item.get("L", m)
+    e = sym_value(W, "e", L, 1, 1) if "L" in item else sym_value(W, "e", m)
     vs = {"e": e}
     assume = [e >= 1, e < full]
+    if z3.is_bv_value(e) and not (1 <= e.as_long() < full):
+        return [ob(item["clause"], item["config"], "holds", what=f"no exponent with this bit length in 1 <= e < 2^{m} - 1 (empty range): nothing to decide",
+                   note="vacuous by the range, not by the harness")]
+    if z3.is_bv_value(e):          # single exponent (bit length 1): keep one symbolic bit for the model/replay plumbing
+        z = z3.BitVec("z", 1)
+        vs = {"e": e | (z3.ZeroExt(W - 1, z) & 0)}
     nat = native_of(law_prim_lower, ["e"], fixed=(F,))
     if patch is not None:
         nat = patch(nat)
@@ -813,33 +828,53 @@ def _mut_table_modulus(node):
     return False
 
 
-def _mut_degree_off(node):
-    return e2.mut_constant(1, 2, nth=1)(node)
+def _mut_mod_early_return(node):
+    """BinaryPolynomial.__mod__: `if self.degree < modulus.degree: return self`  ->  `<=`"""
+    for n in ast.walk(node):
+        if isinstance(n, ast.Compare) and isinstance(n.ops[0], ast.Lt) and "modulus.degree" in ast.unparse(n):
+            n.ops[0] = ast.LtE()
+            return True
+    return False
 
 
+def _mut_lcm_no_division(node):
+    """BinaryPolynomial.lcm: `quotient = product.div(gcd)`  ->  `quotient = product`"""
+    for n in ast.walk(node):
+        if isinstance(n, ast.Assign) and isinstance(n.value, ast.Call) and ast.unparse(n.value) == "product.div(gcd)":
+            n.value = ast.Name(id="product", ctx=ast.Load())
+            return True
+    return False
+
+
+# name -> function to break, AST transformation, and the (kind, clause, small configuration) that has to flag it
 MUTANTS = {
-    "BinaryPolynomial.__mul__: result |= a instead of ^=": dict(fn=BinaryPolynomial.__mul__, tr=e2.mut_replace_binop(ast.BitXor, ast.BitOr),
-                                                                run=("poly", "poly.divmod", dict(degs=[3, 2], D=4))),
-    "BinaryPolynomial.div: special-cased literal (self.value == 77 -> quotient 3)": dict(fn=BinaryPolynomial.div, tr=e2.mut_special_case("self.value", 77, "BinaryPolynomial(3)"),
-                                                                                       run=("poly", "poly.divmod", dict(degs=[6, 3], D=6))),
-    "BinaryPolynomial.__mod__: wrong shift direction (modulus_value >> shift)": dict(fn=BinaryPolynomial.__mod__, tr=e2.mut_replace_binop(ast.LShift, ast.RShift),
-                                                                                   run=("poly", "poly.gcd_divides", dict(degs=[3, 2], D=3))),
-    "BinaryPolynomial.gcd: returns the last non-zero remainder's predecessor (a % b -> b % a)": dict(fn=BinaryPolynomial.lcm, tr=e2.mut_replace_binop(ast.Mult, ast.Mod),
-                                                                                                   run=("poly", "poly.lcm_gcd", dict(degs=[3, 2], D=3))),
-    "FiniteBifieldElement.__mul__: special-cased literal (self.value == 6 -> returns other)": dict(fn=FiniteBifieldElement.__mul__, tr=e2.mut_special_case("self.value", 6, "other"),
-                                                                                                 run=("field", "field.assoc", dict(m=3))),
-    "FiniteBifieldElement.__add__: | instead of ^": dict(fn=FiniteBifieldElement.__add__, tr=e2.mut_replace_binop(ast.BitXor, ast.BitOr),
-                                                         run=("field", "field.distrib", dict(m=3))),
-    "FiniteBifieldElement.inverse: exponent size - 3 instead of size - 2": dict(fn=FiniteBifieldElement.inverse, tr=e2.mut_constant(2, 3),
-                                                                               run=("field", "field.inverse", dict(m=4))),
-    "FiniteBifieldElement.trace: loop runs one squaring short": dict(fn=FiniteBifieldElement.trace, tr=e2.mut_constant(1, 2),
-                                                                     run=("field", "field.trace", dict(m=4))),
-    "FiniteBifield.__init__: wrong modulus in the table of primitive polynomials (m=4: 0b10011 -> 0b10101)": dict(fn=FiniteBifield.__init__, tr=_mut_table_modulus, native_field=4,
-                                                                                                                run=("prim", "field.primitive_order_exact", dict(m=4))),
-    "FiniteBifield.primitive_element: returns x+1 (0b11) instead of x": dict(fn=FiniteBifield.primitive_element, tr=e2.mut_constant(0b10, 0b1),
-                                                                             run=("prim_full", "field.primitive_order_divides", dict(m=3)), also=("prim", "field.primitive_order_exact", dict(m=2))),
-    "FiniteBifieldElement.minimal_polynomial: search starts at mask 1 (skips the first candidate)": dict(fn=FiniteBifieldElement.conjugates, tr=e2.mut_special_case("self.value", 3, "[self]"),
-                                                                                                       run=("field", "field.conjugates", dict(m=3))),
+    "BinaryPolynomial.__mul__: result |= a instead of result ^= a":
+        dict(fn=BinaryPolynomial.__mul__, tr=e2.mut_replace_binop(ast.BitXor, ast.BitOr), run=("poly", "poly.divmod", dict(degs=[3, 2], D=4))),
+    "BinaryPolynomial.div: special-cased literal (self.value == 77 returns quotient 3)":
+        dict(fn=BinaryPolynomial.div, tr=e2.mut_special_case("self.value", 77, "BinaryPolynomial(3)"), run=("poly", "poly.divmod", dict(degs=[6, 3], D=6))),
+    "BinaryPolynomial.__mod__: early return on deg a <= deg b instead of <":
+        dict(fn=BinaryPolynomial.__mod__, tr=_mut_mod_early_return, run=("poly", "poly.divmod", dict(degs=[3, 3], D=4))),
+    "BinaryPolynomial.lcm: product not divided by the gcd":
+        dict(fn=BinaryPolynomial.lcm, tr=_mut_lcm_no_division, run=("poly", "poly.lcm_gcd", dict(degs=[3, 2], D=3))),
+    "CyclicCodeEncoder._custom_div_with_remainder: special-cased literal (dividend 45 returns (0, dividend))":
+        dict(fn=CyclicCodeEncoder._custom_div_with_remainder, tr=e2.mut_special_case("dividend.value", 45, "(BinaryPolynomial(0), dividend)"),
+             run=("poly", "poly.custom_divmod", dict(degs=[5, 2], D=5)), owner=CyclicCodeEncoder),
+    "FiniteBifieldElement.__mul__: special-cased literal (self.value == 6 returns other)":
+        dict(fn=FiniteBifieldElement.__mul__, tr=e2.mut_special_case("self.value", 6, "other"), run=("field", "field.mul_comm", dict(m=3))),
+    "FiniteBifieldElement.__add__: | instead of ^":
+        dict(fn=FiniteBifieldElement.__add__, tr=e2.mut_replace_binop(ast.BitXor, ast.BitOr), run=("field", "field.add_group", dict(m=3))),
+    "FiniteBifieldElement.inverse: exponent size - 3 instead of size - 2":
+        dict(fn=FiniteBifieldElement.inverse, tr=e2.mut_constant(2, 3), run=("field", "field.inverse", dict(m=4))),
+    "FiniteBifieldElement.trace: one squaring short (range(2, m))":
+        dict(fn=FiniteBifieldElement.trace, tr=e2.mut_constant(1, 2), run=("field", "field.trace", dict(m=4))),
+    "FiniteBifieldElement.conjugates: special-cased literal (self.value == 3 returns [self])":
+        dict(fn=FiniteBifieldElement.conjugates, tr=e2.mut_special_case("self.value", 3, "[self]"), run=("field", "field.conjugates", dict(m=3))),
+    "FiniteBifieldElement.minimal_polynomial: special-cased literal (self.value == 5 returns x^3+x^2+x+1)":
+        dict(fn=FiniteBifieldElement.minimal_polynomial, tr=e2.mut_special_case("self.value", 5, "BinaryPolynomial(15)"), run=("field", "field.minpoly_vanishes", dict(m=3))),
+    "FiniteBifield.__init__: wrong modulus in the table of primitive polynomials (m = 4: 0b10011 -> 0b10101)":
+        dict(fn=FiniteBifield.__init__, tr=_mut_table_modulus, native_field=4, run=("prim", "field.primitive_order_exact", dict(m=4))),
+    "FiniteBifield.primitive_element: returns 1 instead of x":
+        dict(fn=FiniteBifield.primitive_element, tr=e2.mut_constant(0b10, 0b1), run=("prim", "field.primitive_order_exact", dict(m=3))),
 }
 
 
@@ -847,9 +882,9 @@ class _Patched:
     """process-local replacement of one function of the real class by the compiled mutant while the replay
     of a mutant witness runs (nothing is written to /repo)"""
 
-    def __init__(self, fn, compiled):
+    def __init__(self, fn, compiled, owner=None):
         q = fn.__qualname__.split(".")
-        self.cls = getattr(A, q[0])
+        self.cls = owner or getattr(A, q[0])
         self.name = q[1]
         self.compiled = compiled
         self.orig = inspect.getattr_static(self.cls, self.name)
@@ -875,7 +910,7 @@ def w_mutant(item):
 
     def patch(nat):
         def run(**vals):
-            with _Patched(fn, compiled):
+            with _Patched(fn, compiled, spec.get("owner")):
                 return nat(**vals)
         return run
 
@@ -934,7 +969,8 @@ def main():
     chk.bound("poly.divmod / poly.custom_divmod", f"all a, b with deg a <= {B['divmod']}, deg b <= {B['divmod']}, b != 0; one item per (deg a, deg b); b = 0 must raise")
     chk.bound("poly.gcd_divides / gcd_bezout / lcm_gcd", f"all a, b with degrees <= {B['gcd']} (including 0); one item per (deg a, deg b)")
     chk.bound("poly.mul_comm / mul_unit_degree", f"all a, b with degrees <= {B['ring2']}")
-    chk.bound("poly.mul_assoc / mul_distrib", f"all a, b, c with degrees <= {B['ring3']}")
+    chk.bound("poly.mul_assoc", f"all a, b, c with degrees <= {B['ring_assoc']}")
+    chk.bound("poly.mul_distrib", f"all a, b, c with degrees <= {B['ring_distrib']}")
     chk.bound("field.add_group / mul_comm / frobenius", f"every m = 1..{B['field_pairs']}, all pairs (add_group: triples)")
     chk.bound("field.identity / inverse", f"every m = 1..{B['field_single']}, all elements")
     chk.bound("field.distrib", f"every m = 1..{B['field_distrib']}, all triples")
@@ -942,8 +978,8 @@ def main():
     chk.bound("field.pow_def / pow_add", f"every m = 1..{B['field_pow']}, all elements, exponents i, j <= 8 symbolic")
     chk.bound("field.trace", f"every m = 1..{B['field_trace']}, all pairs")
     chk.bound("field.conjugates", f"every m = 1..{B['field_conj']}, all elements")
-    chk.bound("field.minpoly_vanishes / minpoly_irreducible", f"every m = 1..{B['minpoly']}, all elements (one path per returned polynomial)")
-    chk.bound("field.minpoly_least", f"every m = 1..{B['minpoly_least']}, all elements x all non-zero f with deg f < m")
+    chk.bound("field.minpoly_vanishes / minpoly_irreducible", f"every m = 1..{B['minpoly']}, all elements (irreducible: all q, r of degree >= 1 and < m)")
+    chk.bound("field.minpoly_least", f"every m = 1..{B['minpoly']}, all elements x all non-zero f with deg f < m")
     chk.bound("field.primitive_order_exact / primitive_order_divides", f"every m = 1..{B['prim']}, all exponents 1 <= e < 2^m - 1")
     chk.bound("field.no_zero_divisors", f"every m = 1..{B['nzd']}, all pairs of non-zero elements (a <= b by commutativity of the query only)")
     chk.bound("bit-vector widths", "2.D+5 (two-operand polynomial laws), 3.D+5 (three-operand), 2.m+4 (field laws); every << + - * carries a no-overflow side condition")
